@@ -65,6 +65,10 @@ package_info _ =
   let ExtTriple: int->string->bool->string
   let ExtZero<T>: int->string->[]T
   let ExtConv<T, U>: int->string->T*U
+  let ExtLogger: string->string->(string->())
+  let ExtPrinter: string->(string->())
+  let ExtAdder: int->(int->int)
+  let ExtNest: int->(int->(string->()))
 
 package_info extpkg =
   type Counter
@@ -226,6 +230,10 @@ let callsPartial () =
 let callsPiped () =
   3 |> ExtAdd 4
 
+let callsComputed () =
+  let f = ExtAdd (unitIn ())
+  (f 5) + "/" + (8 |> ExtAdd (unitIn ()))
+
 let callsExplicit () =
   ExtShow<int> 7
 
@@ -265,6 +273,27 @@ let callsPkgPipe () =
 let counter () =
   let c = extpkg.NewCounter ()
   extpkg.Bump c 5
+
+let fnFull () =
+  ExtLogger "A" "b"
+
+let fnPartialPiped () =
+  ":" |> ExtLogger "B"
+
+let fnBarePiped () =
+  "C" |> ExtPrinter
+
+let fnAdderPiped () =
+  3 |> ExtAdder
+
+let fnNestPiped () =
+  4 |> ExtNest
+
+let fnUse () =
+  let l = "d" |> ExtPrinter
+  l "e"
+  let a = 5 |> ExtAdder
+  a 6
 `)
 	// explicitly instantiated calls of generic package functions whose type parameter occurs only in
 	// the RESULT (Go cannot infer it: the emitted call must carry the type arguments), in every call
@@ -309,10 +338,14 @@ let xTwoPiped () =
 	exp.WriteString(fmt.Sprintf("frt.Tuple2[%s,%s] frt.Tuple2[%s,%s]\n", strings.ReplaceAll(t7.goT, " ", ""), strings.ReplaceAll(t1.goT, " ", ""), strings.ReplaceAll(t2.goT, " ", ""), strings.ReplaceAll(t7.goT, " ", "")))
 	cl.WriteString("\tfmt.Println(callsFull(), callsPartial(), callsPiped(), callsExplicit(), callsInferred(), callsUnit())\n\tcallsProc()\n")
 	cl.WriteString("\tfmt.Println(callsTriple0(), callsTriple1(), callsTriple2(), callsTriplePipe())\n")
-	cl.WriteString("\tfmt.Println(callsPkg(), callsPkgPartial(), callsPkgPipe(), counter())\n}\n")
+	cl.WriteString("\tfmt.Println(callsPkg(), callsPkgPartial(), callsPkgPipe(), counter(), callsComputed())\n")
+	// results that are functions (a parenthesised function type at the end of a signature is a Go func
+	// VALUE that is returned): used from Go by the documented shape
+	cl.WriteString("\tfnFull()(\"1\")\n\tfnPartialPiped()(\"2\")\n\tfnBarePiped()(\"3\")\n\tfmt.Println(fnAdderPiped()(10), fnUse())\n\tfnNestPiped()(1)(\"n\")\n}\n")
 	exp.WriteString("ExtAdd(1,2) ExtAdd(10,5) ExtAdd(4,3) ExtShow(7) ExtShow(s) 99\nExtProc(p)\n")
 	exp.WriteString("1/w/true 1/x/true 2/y/false 3/z/true\n")
-	exp.WriteString("42 a+b+c p+q+r 105\n")
+	exp.WriteString("42 a+b+c p+q+r 105 ExtAdd(7,5)/ExtAdd(7,8)\n")
+	exp.WriteString("log A b 1\nlog B : 2\nprint C 3\nprint d e\n13 11\nnest 4 1 n\n")
 	return foB.String(), cl.String(), exp.String(), unions, recs
 }
 
@@ -331,6 +364,10 @@ func ExtProc(s string)                 { fmt.Printf("ExtProc(%s)\n", s) }
 func ExtTriple(a int, b string, c bool) string { return fmt.Sprintf("%d/%s/%v", a, b, c) }
 func ExtZero[T any](n int, s string) []T { return make([]T, n) }
 func ExtConv[T any, U any](n int, s string) frt.Tuple2[T, U] { var t T; var u U; return frt.NewTuple2(t, u) }
+func ExtLogger(a string, b string) func(string) { return func(c string) { fmt.Println("log", a, b, c) } }
+func ExtPrinter(a string) func(string) { return func(c string) { fmt.Println("print", a, c) } }
+func ExtAdder(a int) func(int) int     { return func(b int) int { return a + b } }
+func ExtNest(a int) func(int) func(string) { return func(b int) func(string) { return func(c string) { fmt.Println("nest", a, b, c) } } }
 `
 
 const c03Pkg = `package extpkg
